@@ -110,6 +110,60 @@ def ecdsa_verify(ex, a, ins):
     z = hash_to_z(ex.read_bytes(h))
     return simp(z3.And(R != 0, S != 0, z3.ULT(R, N), z3.ULT(S, N), ECDSA_OK(cid(name), tobv(x, W), tobv(y, W), tobv(z, W), R, S)))
 
+def _der_int(ex, bs, pos):
+    """strict DER INTEGER at bs[pos:]: returns (ok-condition, value bytes (big-endian list), next position) or None when
+    the structure bytes are not concrete / malformed on this path (then the signature is rejected)"""
+    if pos + 2 > len(bs) or not isinstance(bs[pos], int) or not isinstance(bs[pos + 1], int):
+        return None
+    if bs[pos] != 0x02 or bs[pos + 1] >= 0x80 or bs[pos + 1] == 0:
+        return None
+    ln = bs[pos + 1]
+    if pos + 2 + ln > len(bs):
+        return None
+    body = bs[pos + 2: pos + 2 + ln]
+    # non-negative (top bit of the first byte clear) and minimal (no leading 00 unless the next byte has its top bit set)
+    ok = tobool(int_binop('==', int_binop('&', body[0], 0x80, 8, False), 0, 8, False))
+    if ln > 1:
+        lead0 = tobool(int_binop('==', body[0], 0, 8, False))
+        nxt = tobool(int_binop('!=', int_binop('&', body[1], 0x80, 8, False), 0, 8, False))
+        ok = z3.And(ok, z3.Or(z3.Not(lead0), nxt))
+    return ok, body, pos + 2 + ln
+
+def ecdsa_verify_asn1(ex, a, ins):
+    """crypto/ecdsa.VerifyASN1(pub, hash, sig): sig must be the strict DER encoding SEQUENCE { INTEGER r, INTEGER s }
+    (minimal, non-negative integers, no trailing bytes); then as crypto/ecdsa.Verify. The length / tag bytes must be
+    concrete on the path (they are when the signature was built by a DER builder); integer contents are symbolic."""
+    pub, h, sig = a
+    bs = ex.read_bytes(sig)
+    if len(bs) < 8 or not isinstance(bs[0], int) or not isinstance(bs[1], int):
+        if all(isinstance(b, int) for b in bs[:2]) or len(bs) < 8:
+            return False
+        raise Unsupported('VerifyASN1 on a signature with symbolic DER structure bytes')
+    if bs[0] != 0x30 or bs[1] >= 0x80 or bs[1] != len(bs) - 2:
+        return False
+    r1 = _der_int(ex, bs, 2)
+    if r1 is None:
+        return False
+    ok1, rb, pos = r1
+    r2 = _der_int(ex, bs, pos)
+    if r2 is None:
+        return False
+    ok2, sb, pos = r2
+    if pos != len(bs) or len(rb) > 33 or len(sb) > 33:
+        return False
+    curve, X, Y = _pk_fields(ex, pub)
+    name = curve_name_of(ex, curve)
+    p, n = PN[name]
+    x, _ = bget(ex, X); y, _ = bget(ex, Y)
+    N = z3.BitVecVal(n, W)
+    def val(bb):
+        v = bb[0] if len(bb) == 1 else simp(z3.Concat(*[tobv(b, 8) for b in bb])) if not all(isinstance(b, int) for b in bb) else int.from_bytes(bytes(bb), 'big')
+        v = tobv(v, 8 * len(bb))
+        return simp(z3.ZeroExt(W - 8 * len(bb), v)) if 8 * len(bb) < W else v
+    R, S = val(rb), val(sb)
+    z = hash_to_z(ex.read_bytes(h))
+    return simp(z3.And(ok1, ok2, R != 0, S != 0, z3.ULT(R, N), z3.ULT(S, N), ECDSA_OK(cid(name), tobv(x, W), tobv(y, W), tobv(z, W), R, S)))
+
 # ---- ecdh (P-256 key construction / validation)
 
 def ecdh_p256(ex, a, ins):
@@ -399,6 +453,7 @@ def install(ex):
     S[SECP + '/ecdsa.NewSignature'] = btc_new_signature
     S['crypto/ecdsa.Sign'] = ecdsa_sign
     S['crypto/ecdsa.Verify'] = ecdsa_verify
+    S['crypto/ecdsa.VerifyASN1'] = ecdsa_verify_asn1
     S['crypto/ecdh.P256'] = ecdh_p256
     S[('method', 'verif.ecdhcurve', 'NewPrivateKey')] = ecdh_new_private
     S[('method', 'verif.ecdhcurve', 'NewPublicKey')] = ecdh_new_public
@@ -417,6 +472,7 @@ def install(ex):
 TRUSTED = ['crypto/hkdf.Key: uninterpreted function of (secret, salt, info, length) bytes',
            'crypto/ecdsa.Sign: returns some (r, s) with 1 <= r, s < n satisfying the uninterpreted ECDSA relation for (curve, public key, leftmost 256 bits of the hash)',
            'crypto/ecdsa.Verify: 1 <= r, s < n and the same relation',
+           'crypto/ecdsa.VerifyASN1: strict DER SEQUENCE of two minimal non-negative INTEGERs (structure bytes concrete on the path), then as Verify; golang.org/x/crypto/cryptobyte is executed from its SSA',
            'crypto/ecdh P-256 NewPrivateKey (1 <= d < n), PublicKey().Bytes() (04||X||Y of an uninterpreted derivation, reduced, on curve), NewPublicKey (04 prefix, reduced, on-curve predicate)',
            'btcec native route: ModNScalar / FieldVal SetByteSlice (reduction modulo n / p with overflow flag), NewPublicKey, ecdsa.NewSignature, Signature.Verify (r, s non-zero and the same uninterpreted ECDSA relation)',
            'btcec S256().ScalarBaseMult / IsOnCurve / ParsePubKey / ToECDSA, elliptic.UnmarshalCompressed / MarshalCompressed: uninterpreted derivation, on-curve predicate and decompression with the documented prefix / range / parity contract']
